@@ -9,6 +9,7 @@ import BeffVerif.Driver.WatchOps
 import BeffVerif.Driver.SubOps
 import BeffVerif.Driver.SemOps
 import BeffVerif.Driver.H256Ops
+import BeffVerif.Driver.SemTypeOps
 /-! Line-protocol driver: one request S-expression per line on stdin, one reply per line on stdout. -/
 open BeffVerif
 
@@ -27,6 +28,7 @@ def hyps (req : Sexp) : Option Sexp :=
 def handle (req : Sexp) : Sexp :=
   match req with
   | .list [.atom "bdd-ops", .list atoms, .list script] => Driver.bddOps atoms script
+  | .list [.atom "sem-ops", .list atoms, .list script] => Driver.semTypeOps atoms script
   | .list (.atom "sha-bytes" :: chunks) => Driver.shaBytes chunks
   | .list (.atom "sha-toks" :: toks) => Driver.shaToks toks
   | .list [.atom "rt", env, rt, val, .atom strict] => Driver.rtOp env rt val (strict == "true")
